@@ -685,6 +685,16 @@ func (w *World) Build() {
 	for i := 0; i < n; i++ {
 		w.CreateTable()
 	}
+	if w.Snap != nil && len(w.Snap.Tables) == 0 {
+		// SQLite rejected every generated definition: an empty database (schema format 0)
+		// is outside what sqlittle reads; make sure there is at least one table
+		w.Begin()
+		w.Exec("CREATE TABLE tfb (a INTEGER PRIMARY KEY, b TEXT, c)")
+		w.Commit()
+		w.Begin()
+		w.InsertRows("tfb", 5+w.S.Draw(20, "fbrows"))
+		w.Commit()
+	}
 }
 
 // Scratch returns a fresh per-run directory on a RAM disk.
